@@ -92,6 +92,32 @@ def prim_obligations(aes, rep, name, dtype, lead_kind, timeout):
             rp_, o = R.replay_native('props.c05_native', case)
             rep.violation('frame[%s,%s,%s]' % (name, dtype, lead_kind), MOD + '::' + name, 'argument array is modified', case, reproduced=rp_, native_msg=o)
 
+def prim_history(aes, rep, name, timeout):
+    """history: the array returned by a call stays what it was when the same operation is called again on other states of the same shape
+    (no result buffer shared between calls) -- needed for 'the returned state equals the FIPS state' to hold for a caller who keeps results"""
+    spec, width = PRIMS[name]
+    oname = 'history[%s: an array returned by an earlier call is not overwritten by later calls]' % name; case = dict(kind='prim_history', fn=name)
+    def body():
+        N = core.sym_int('N', 1)
+        X1 = H.sym_bytes('X1', (N, width), 'uint8'); X2 = H.sym_bytes('X2', (N, width), 'uint8')
+        L.set_task(stubs={'scared._utils::_is_bytes_array': bytes_stub})
+        out1 = aes.fn(name)(X1)
+        idx, cons = H.generic_index((N,)); core.assume(z3.And(*cons)) if cons else None
+        before = H.row_elems(out1, tuple(idx))
+        out2 = aes.fn(name)(X2)
+        after = H.row_elems(out1, tuple(idx))
+        return before, after, out1.st is out2.st
+    for p, outc, exc in run_paths(body):
+        if exc is not None:
+            rep.obligation(oname, MOD + '::' + name, 'frame', dict(result='sat', backend='exec', secs=0), sample=repr(exc))
+            rep.violation(oname, MOD + '::' + name, 'raises %r' % (exc,), case, reproduced=None); continue
+        before, after, shared = outc
+        res = dict(result='sat', backend='frame-scan', secs=0) if shared else (dict(result='unsat', backend='structural', secs=0) if H.structurally_equal(before, after, simp=True) else solve.discharge(p.pc, H.eq_all(before, after), timeout_ms=timeout))
+        rep.obligation(oname, MOD + '::' + name, 'frame', res, sample='out1 = f(X1); f(X2); out1 read again')
+        if res['result'] == 'sat':
+            rp_, o = R.replay_native('props.c05_native', case)
+            rep.violation(oname, MOD + '::' + name, 'the result of an earlier call aliases a buffer that later calls write', case, reproduced=rp_, native_msg=o)
+
 def ark_obligation(aes, rep, dtype, timeout):
     def body():
         N = core.sym_int('N', 1)
@@ -299,6 +325,7 @@ def main():
         for dt in dtypes:
             for lk in ('N', '1'): units.append(('prim', name, dt, lk))
     for dt in dtypes: units.append(('ark', dt))
+    for name in PRIMS: units.append(('hist', name))
     units.append(('inverse',))
     for mode in ('encrypt', 'decrypt'):
         for kl in (16, 24, 32):
@@ -310,6 +337,7 @@ def main():
     def work(sub, kind, *args):
         if kind == 'prim': prim_obligations(aes, sub, args[0], args[1], args[2], timeout)
         elif kind == 'ark': ark_obligation(aes, sub, args[0], timeout)
+        elif kind == 'hist': prim_history(aes, sub, args[0], timeout)
         elif kind == 'inverse': inverse_lemmas(aes, sub, timeout)
         elif kind == 'comp': composition(aes, sub, args[0], args[1], args[2], args[3], args[4], timeout)
     P.run_units(rep, work, units)
